@@ -1,8 +1,1103 @@
-(* Proofs/Ensemble.v -- lemmas about Model/Ensemble.v (C01, C03). *)
+(* Proofs/Ensemble.v -- lemmas about Model/Ensemble.v (C01, C03).
+
+   1-5   element-wise ==, the reduced sums rsum/rdot are the plain sums, gather, weight vectors that vanish at
+         the failed positions, zero_failed / normalize
+   6     "as if absent": every estimated function of the full ensemble equals that of the ensemble with the
+         failed realizations deleted (mean, variance, abort and 0/0 branches alike)
+   7     the two estimators against their textbook specification over the survivors
+   8     gradients: the least-squares system sees only the successful perturbations; the combined mean / stddev
+         gradient of the full ensemble equals that of the reduced ensemble (for any solver returning nv entries)
+   9-11  factorisation of estimate_all, rows of the filtered weight matrices, batch layout
+   12    failure flags, thresholds, the realization_min_success gate, exit codes *)
 From Coq Require Import String QArith Qabs List Bool Arith ZArith Lia Lqa.
 From Ropt Require Import Base.Num Base.ListX Gen.Generated Model.Ensemble.
 Import ListNotations.
 Open Scope Q_scope.
 
-Lemma weighted_objective_dot ow objs : weighted_objective ow objs = rdot ow objs.
+
+(* ================================================================================================ *)
+(* 1. element-wise == on vectors                                                                     *)
+
+Lemma veq_refl a : veq a a.
+Proof. induction a as [|x a IH]; constructor; [reflexivity | exact IH]. Qed.
+Lemma veq_sym a b : veq a b -> veq b a.
+Proof. induction 1 as [|x y a b Hxy _ IH]; constructor; [symmetry; exact Hxy | exact IH]. Qed.
+Lemma veq_trans a b c : veq a b -> veq b c -> veq a c.
+Proof.
+  intros Hab; revert c; induction Hab as [|x y a b Hxy _ IH]; intros c Hbc; inversion Hbc as [|y' z b' c' Hyz Hbc']; subst.
+  - constructor.
+  - constructor; [rewrite Hxy; exact Hyz | apply IH; exact Hbc'].
+Qed.
+Lemma veq_length a b : veq a b -> length a = length b.
+Proof. induction 1 as [|x y a b _ _ IH]; cbn; [reflexivity | rewrite IH; reflexivity]. Qed.
+Lemma veq_map_ext (g h : Q -> Q) l : (forall x, g x == h x) -> veq (map g l) (map h l).
+Proof. intros H; induction l as [|x l IH]; cbn [map]; constructor; [apply H | exact IH]. Qed.
+
+(* ================================================================================================ *)
+(* 2. the reduced sums of the model are the plain sums                                               *)
+Lemma rsum_cons x l : rsum (x :: l) = Qred (x + rsum l).
 Proof. reflexivity. Qed.
+Lemma rsum_qsum l : rsum l == qsum l.
+Proof.
+  induction l as [|x l IH]; [rewrite qsum_nil; reflexivity|].
+  rewrite rsum_cons, qsum_cons, Qred_correct, IH. reflexivity.
+Qed.
+Lemma rdot_cons x a y b : rdot (x :: a) (y :: b) = Qred (Qred (x * y) + rdot a b).
+Proof. reflexivity. Qed.
+Lemma dot_nil_r a : dot a [] = 0.
+Proof. unfold dot. destruct a; cbn [combine map]; apply qsum_nil. Qed.
+Lemma rdot_nil_r a : rdot a [] = 0.
+Proof. unfold rdot. destruct a; reflexivity. Qed.
+Lemma rdot_dot a b : rdot a b == dot a b.
+Proof.
+  revert b; induction a as [|x a IH]; intros [|y b].
+  - rewrite dot_nil_l. reflexivity.
+  - rewrite dot_nil_l. reflexivity.
+  - rewrite dot_nil_r, rdot_nil_r. reflexivity.
+  - rewrite rdot_cons, dot_cons, !Qred_correct, IH. reflexivity.
+Qed.
+
+Lemma dot_proper a a' w w' : veq a a' -> veq w w' -> dot a w == dot a' w'.
+Proof.
+  intros Ha; revert w w'; induction Ha as [|x x' a a' Hx _ IH]; intros w w' Hw.
+  - rewrite !dot_nil_l. reflexivity.
+  - inversion Hw as [|v v' u u' Hv Hu]; subst; [rewrite !dot_nil_r; reflexivity|].
+    rewrite !dot_cons, Hx, Hv, (IH _ _ Hu). reflexivity.
+Qed.
+
+Lemma dot_div_r s a b : dot a (map (fun x => Qred (x / s)) b) == dot a b / s.
+Proof.
+  revert b; induction a as [|x a IH]; intros [|y b]; cbn [map].
+  - rewrite !dot_nil_l. unfold Qdiv. ring.
+  - rewrite !dot_nil_l. unfold Qdiv. ring.
+  - rewrite !dot_nil_r. unfold Qdiv. ring.
+  - rewrite !dot_cons, IH, Qred_correct. unfold Qdiv. ring.
+Qed.
+Lemma qsum_div_r s b : qsum (map (fun x => Qred (x / s)) b) == qsum b / s.
+Proof.
+  induction b as [|y b IH]; cbn [map]; [rewrite qsum_nil; unfold Qdiv; ring|].
+  rewrite !qsum_cons, IH, Qred_correct. unfold Qdiv. ring.
+Qed.
+
+(* ================================================================================================ *)
+(* 3. gather                                                                                          *)
+Lemma gather_nil {A} (m : list bool) : gather m (@nil A) = [].
+Proof. destruct m as [|[] m]; reflexivity. Qed.
+Lemma combine_nil_r {A B} (l : list A) : combine l (@nil B) = [].
+Proof. destruct l; reflexivity. Qed.
+Lemma gather_map {A B} (f : A -> B) m l : gather m (map f l) = map f (gather m l).
+Proof.
+  revert l; induction m as [|b m IH]; intros [|x l]; cbn [map gather]; try reflexivity.
+  - destruct b; reflexivity.
+  - destruct b; cbn [map]; rewrite IH; reflexivity.
+Qed.
+Lemma gather_combine {A B} m (a : list A) (b : list B) :
+  gather m (combine a b) = combine (gather m a) (gather m b).
+Proof.
+  revert a b; induction m as [|c m IH]; intros [|x a] [|y b]; try reflexivity; destruct c; cbn [combine gather]; try reflexivity.
+  - rewrite combine_nil_r. reflexivity.
+  - rewrite IH. reflexivity.
+  - apply IH.
+Qed.
+Lemma gather_length {A} m (l : list A) : length l = length m -> length (gather m l) = count_true m.
+Proof.
+  revert l; induction m as [|b m IH]; intros [|x l] H; cbn in H; try discriminate; [reflexivity|].
+  injection H as H. unfold count_true in *. destruct b; cbn [gather filter length]; rewrite IH by exact H; reflexivity.
+Qed.
+Lemma gather_veq m a b : veq a b -> veq (gather m a) (gather m b).
+Proof.
+  intros H; revert m; induction H as [|x y a b Hxy _ IH]; intros m; [rewrite !gather_nil; constructor|].
+  destruct m as [|[] m]; cbn [gather]; [constructor | constructor; [exact Hxy | apply IH] | apply IH].
+Qed.
+Lemma keep_of_cons b failed : keep_of (b :: failed) = negb b :: keep_of failed.
+Proof. reflexivity. Qed.
+Lemma count_ok_keep failed : count_ok failed = count_true (keep_of failed).
+Proof. reflexivity. Qed.
+Lemma keep_of_length failed : length (keep_of failed) = length failed.
+Proof. unfold keep_of. apply map_length. Qed.
+
+(* ================================================================================================ *)
+(* 4. weight vectors that vanish at the failed positions                                              *)
+Definition zeros_at (failed : list bool) (w : list Q) : Prop :=
+  Forall2 (fun (b : bool) (v : Q) => b = true -> v == 0) failed w.
+
+Lemma zeros_at_map (g : Q -> Q) failed w : (forall v, v == 0 -> g v == 0) -> zeros_at failed w -> zeros_at failed (map g w).
+Proof. intros Hg H; induction H as [|b v failed w Hb _ IH]; cbn [map]; constructor; [intros E; apply Hg, Hb, E | exact IH]. Qed.
+
+Lemma dot_gather failed w a : zeros_at failed w ->
+  dot a w == dot (gather (keep_of failed) a) (gather (keep_of failed) w).
+Proof.
+  intros H; revert a; induction H as [|b v failed w Hb _ IH]; intros [|x a]; rewrite ?keep_of_cons.
+  - cbn [gather]. reflexivity.
+  - cbn [gather keep_of map]. rewrite !dot_nil_r. reflexivity.
+  - rewrite gather_nil, !dot_nil_l. reflexivity.
+  - destruct b; cbn [negb gather]; rewrite !dot_cons, (IH a).
+    + rewrite (Hb eq_refl). ring.
+    + reflexivity.
+Qed.
+Lemma qsum_gather failed w : zeros_at failed w -> qsum w == qsum (gather (keep_of failed) w).
+Proof.
+  induction 1 as [|b v failed w Hb _ IH]; [reflexivity|].
+  rewrite keep_of_cons. destruct b; cbn [negb gather]; rewrite !qsum_cons, IH; [rewrite (Hb eq_refl); ring | reflexivity].
+Qed.
+
+Lemma Qeqb_proper a b : a == b -> Qeqb a 0 = Qeqb b 0.
+Proof.
+  intros H. destruct (Qeqb a 0) eqn:Ea, (Qeqb b 0) eqn:Eb; try reflexivity.
+  - apply Qeqb_eq in Ea. apply Qeqb_neq in Eb. exfalso. apply Eb. rewrite <- H. exact Ea.
+  - apply Qeqb_neq in Ea. apply Qeqb_eq in Eb. exfalso. apply Ea. rewrite H. exact Eb.
+Qed.
+Lemma Qltb_proper a b : a == b -> Qltb 0 a = Qltb 0 b.
+Proof.
+  intros H. destruct (Qltb 0 a) eqn:Ea, (Qltb 0 b) eqn:Eb; try reflexivity.
+  - apply Qltb_lt in Ea. apply Qltb_nlt in Eb. lra.
+  - apply Qltb_nlt in Ea. apply Qltb_lt in Eb. lra.
+Qed.
+Lemma Qeqb_0_true a : a == 0 -> Qeqb a 0 = true.
+Proof. intros H. apply Qeqb_eq. exact H. Qed.
+Lemma Qltb_0_false a : a == 0 -> Qltb 0 a = false.
+Proof. intros H. apply Qltb_nlt. lra. Qed.
+
+Lemma count_nonzero_cons v w : count_nonzero (v :: w) = ((if Qeqb v 0 then 0 else 1) + count_nonzero w)%nat.
+Proof. unfold count_nonzero. cbn [filter]. destruct (Qeqb v 0); reflexivity. Qed.
+Lemma count_pos_cons v w : count_pos (v :: w) = ((if Qltb 0 v then 1 else 0) + count_pos w)%nat.
+Proof. unfold count_pos. cbn [filter]. destruct (Qltb 0 v); reflexivity. Qed.
+Lemma count_nonzero_veq w w' : veq w w' -> count_nonzero w = count_nonzero w'.
+Proof. induction 1 as [|v v' w w' Hv _ IH]; [reflexivity|]. rewrite !count_nonzero_cons, (Qeqb_proper _ _ Hv), IH. reflexivity. Qed.
+Lemma count_pos_veq w w' : veq w w' -> count_pos w = count_pos w'.
+Proof. induction 1 as [|v v' w w' Hv _ IH]; [reflexivity|]. rewrite !count_pos_cons, (Qltb_proper _ _ Hv), IH. reflexivity. Qed.
+Lemma count_nonzero_gather failed w : zeros_at failed w -> count_nonzero w = count_nonzero (gather (keep_of failed) w).
+Proof.
+  induction 1 as [|b v failed w Hb _ IH]; [reflexivity|]. rewrite keep_of_cons.
+  destruct b; cbn [negb gather]; rewrite !count_nonzero_cons, IH; [rewrite (Qeqb_0_true _ (Hb eq_refl))|]; reflexivity.
+Qed.
+Lemma count_pos_gather failed w : zeros_at failed w -> count_pos w = count_pos (gather (keep_of failed) w).
+Proof.
+  induction 1 as [|b v failed w Hb _ IH]; [reflexivity|]. rewrite keep_of_cons.
+  destruct b; cbn [negb gather]; rewrite !count_pos_cons, IH; [rewrite (Qltb_0_false _ (Hb eq_refl))|]; reflexivity.
+Qed.
+
+(* ================================================================================================ *)
+(* 5. zero_failed and normalize                                                                       *)
+Lemma zero_failed_cons b failed v w : zero_failed (b :: failed) (v :: w) = (if b then 0 else v) :: zero_failed failed w.
+Proof. reflexivity. Qed.
+Lemma zero_failed_nil_r failed : zero_failed failed [] = [].
+Proof. unfold zero_failed. rewrite combine_nil_r. reflexivity. Qed.
+Lemma zero_failed_zeros failed w : length w = length failed -> zeros_at failed (zero_failed failed w).
+Proof.
+  revert w; induction failed as [|b failed IH]; intros [|v w] H; cbn in H; try discriminate; [constructor|].
+  injection H as H. rewrite zero_failed_cons. constructor; [intros ->; reflexivity | apply IH; exact H].
+Qed.
+Lemma gather_zero_failed failed w : gather (keep_of failed) (zero_failed failed w) = gather (keep_of failed) w.
+Proof.
+  revert w; induction failed as [|b failed IH]; intros [|v w]; try reflexivity.
+  rewrite zero_failed_cons, keep_of_cons. destruct b; cbn [negb gather]; rewrite IH; reflexivity.
+Qed.
+Lemma zero_failed_none w : zero_failed (repeat false (length w)) w = w.
+Proof. induction w as [|v w IH]; [reflexivity|]. cbn [length repeat]. rewrite zero_failed_cons, IH. reflexivity. Qed.
+Lemma zero_failed_length failed w : length w = length failed -> length (zero_failed failed w) = length failed.
+Proof. intros H. unfold zero_failed. rewrite map_length, combine_length, H. apply Nat.min_id. Qed.
+
+Lemma normalize_some w : ~ rsum w == 0 -> normalize w = Some (map (fun x => Qred (x / rsum w)) w).
+Proof. intros H. unfold normalize. apply Qeqb_neq in H. rewrite H. reflexivity. Qed.
+Lemma normalize_none w : rsum w == 0 -> normalize w = None.
+Proof. intros H. unfold normalize. apply Qeqb_eq in H. rewrite H. reflexivity. Qed.
+Lemma normalize_inv w n : normalize w = Some n -> ~ rsum w == 0 /\ n = map (fun x => Qred (x / rsum w)) w.
+Proof.
+  unfold normalize. destruct (Qeqb (rsum w) 0) eqn:E; [discriminate|]. intros H. injection H as <-.
+  split; [apply Qeqb_neq; exact E | reflexivity].
+Qed.
+
+(* sum of the weights that survive = sum after zeroing *)
+Lemma rsum_zero_failed failed w : length w = length failed ->
+  rsum (zero_failed failed w) == qsum (gather (keep_of failed) w).
+Proof.
+  intros H. rewrite rsum_qsum, (qsum_gather failed _ (zero_failed_zeros failed w H)), gather_zero_failed. reflexivity.
+Qed.
+
+
+(* ================================================================================================ *)
+(* 6. "as if absent": the normalised weights of the full and of the reduced ensemble                 *)
+Lemma fres_eq_refl a : fres_eq a a.
+Proof. destruct a; cbn; trivial. reflexivity. Qed.
+
+Lemma div_zero s v : v == 0 -> Qred (v / s) == 0.
+Proof. intros H. rewrite Qred_correct, H. unfold Qdiv. ring. Qed.
+
+Lemma normalized_removal failed wrow : length wrow = length failed ->
+  match normalize (zero_failed failed wrow),
+        normalize (zero_failed (repeat false (count_ok failed)) (gather (keep_of failed) wrow)) with
+  | Some w, Some w' => zeros_at failed w /\ veq (gather (keep_of failed) w) w'
+  | None, None => True
+  | _, _ => False
+  end.
+Proof.
+  intros HL.
+  assert (HG : count_ok failed = length (gather (keep_of failed) wrow)).
+  { rewrite gather_length by (rewrite keep_of_length; exact HL). reflexivity. }
+  rewrite HG, zero_failed_none.
+  pose proof (rsum_zero_failed failed wrow HL) as Hs.
+  pose proof (rsum_qsum (gather (keep_of failed) wrow)) as Hs'.
+  assert (E : rsum (zero_failed failed wrow) == rsum (gather (keep_of failed) wrow)) by (rewrite Hs, Hs'; reflexivity).
+  destruct (Qeqb (rsum (zero_failed failed wrow)) 0) eqn:E0.
+  - apply Qeqb_eq in E0. rewrite (normalize_none _ E0), normalize_none by (rewrite <- E; exact E0). exact I.
+  - apply Qeqb_neq in E0. rewrite (normalize_some _ E0), normalize_some by (rewrite <- E; exact E0). split.
+    + apply zeros_at_map; [intros v Hv; apply div_zero; exact Hv | apply zero_failed_zeros; exact HL].
+    + rewrite gather_map, gather_zero_failed. apply veq_map_ext. intros x. rewrite !Qred_correct, E. reflexivity.
+Qed.
+
+Lemma nan_to_num_gather m f : gather m (nan_to_num f) = nan_to_num (gather m f).
+Proof. unfold nan_to_num. apply gather_map. Qed.
+
+Lemma mean_removal failed f w w' : zeros_at failed w -> veq (gather (keep_of failed) w) w' ->
+  rdot f w == rdot (gather (keep_of failed) f) w'.
+Proof.
+  intros Hz Hv. rewrite !rdot_dot, (dot_gather failed w f Hz). apply dot_proper; [apply veq_refl | exact Hv].
+Qed.
+
+Lemma var_of_removal failed fs w w' : zeros_at failed w -> veq (gather (keep_of failed) w) w' ->
+  var_of fs w == var_of (gather (keep_of failed) fs) w'.
+Proof.
+  intros Hz Hv. unfold var_of. cbv zeta.
+  assert (Hn : count_pos w = count_pos w') by (rewrite (count_pos_gather failed w Hz); apply count_pos_veq; exact Hv).
+  pose proof (mean_removal failed fs w w' Hz Hv) as Hm.
+  rewrite Hn. apply Qmult_comp; [reflexivity|].
+  set (g := fun x : Q => Qred (sq (x - rdot fs w))).
+  set (g' := fun x : Q => Qred (sq (x - rdot (gather (keep_of failed) fs) w'))).
+  rewrite (mean_removal failed (map g fs) w w' Hz Hv), gather_map, (rdot_dot (map g _)), (rdot_dot (map g' _)).
+  apply dot_proper; [|apply veq_refl].
+  apply veq_map_ext. intros x. unfold g, g'. rewrite !Qred_correct. unfold sq. rewrite Hm. reflexivity.
+Qed.
+
+Lemma estimate_removal k f wrow failed : length wrow = length failed ->
+  fres_eq (estimate k f wrow failed)
+          (estimate k (gather (keep_of failed) f) (gather (keep_of failed) wrow) (repeat false (count_ok failed))).
+Proof.
+  intros HL. unfold estimate. pose proof (normalized_removal failed wrow HL) as H.
+  destruct (normalize (zero_failed failed wrow)) as [w|],
+           (normalize (zero_failed (repeat false (count_ok failed)) (gather (keep_of failed) wrow))) as [w'|];
+    try contradiction; [|exact I].
+  destruct H as [Hz Hv]. destruct k.
+  - cbn [fres_eq]. unfold est_mean. rewrite <- nan_to_num_gather. apply mean_removal; assumption.
+  - unfold est_var.
+    rewrite (count_nonzero_gather failed w Hz), (count_nonzero_veq _ _ Hv),
+            (count_pos_gather failed w Hz), (count_pos_veq _ _ Hv).
+    destruct (count_nonzero w' <? min_stddev_realizations)%nat; [exact I|].
+    destruct (count_pos w' <=? 1)%nat; [exact I|].
+    cbn [fres_eq]. rewrite <- nan_to_num_gather. apply var_of_removal; assumption.
+Qed.
+
+(* ---- lifted to all functions -------------------------------------------------------------------- *)
+Lemma column_gather j m (rows : omat) : column j (gather m rows) = gather m (column j rows).
+Proof. unfold column. symmetry. apply gather_map. Qed.
+Lemma in_force_gather m cfgw wmat j :
+  in_force (gather m cfgw) (option_map (map (gather m)) wmat) j = gather m (in_force cfgw wmat j).
+Proof.
+  destruct wmat as [mt|]; cbn [in_force option_map]; [|reflexivity].
+  transitivity (nth j (map (gather m) mt) (gather m [])); [rewrite gather_nil; reflexivity | apply map_nth].
+Qed.
+Lemma Forall2_map_same {A B} (R : B -> B -> Prop) (f g : A -> B) l :
+  (forall x, In x l -> R (f x) (g x)) -> Forall2 R (map f l) (map g l).
+Proof.
+  induction l as [|x l IH]; intros H; cbn [map]; constructor; [apply H; left; reflexivity|].
+  apply IH. intros y Hy. apply H. right. exact Hy.
+Qed.
+
+Lemma estimate_all_removal ests emap cfgw wmat rows failed :
+  (forall j, (j < length emap)%nat -> length (in_force cfgw wmat j) = length failed) ->
+  Forall2 fres_eq
+    (estimate_all ests emap cfgw wmat rows failed)
+    (estimate_all ests emap (gather (keep_of failed) cfgw) (option_map (map (gather (keep_of failed))) wmat)
+                  (gather (keep_of failed) rows) (repeat false (count_ok failed))).
+Proof.
+  intros HL. unfold estimate_all. apply Forall2_map_same. intros j Hj. apply in_seq in Hj.
+  unfold estimate_fn. destruct (nth_error ests (nth j emap 0%nat)) as [k|]; [|exact I].
+  rewrite column_gather, in_force_gather. apply estimate_removal. apply HL. lia.
+Qed.
+
+(* the survivors of an ensemble do not fail *)
+Lemma failed_fn_cons oc rows : failed_fn (oc :: rows) = first_is_nan (fst oc) :: failed_fn rows.
+Proof. reflexivity. Qed.
+Lemma failed_fn_survivors rows :
+  failed_fn (gather (keep_of (failed_fn rows)) rows) = repeat false (count_ok (failed_fn rows)).
+Proof.
+  induction rows as [|oc rows IH]; [reflexivity|].
+  rewrite failed_fn_cons, keep_of_cons. unfold count_ok, count_true in *. cbn [map].
+  destruct (first_is_nan (fst oc)) eqn:E; cbn [negb gather filter length repeat].
+  - exact IH.
+  - rewrite failed_fn_cons, E, IH. reflexivity.
+Qed.
+
+(* ================================================================================================ *)
+(* 7. specifications of the two estimators over the survivors                                         *)
+Lemma estimate_mean_spec f wrow failed : length wrow = length failed ->
+  let ws := gather (keep_of failed) wrow in
+  let fs := nan_to_num (gather (keep_of failed) f) in
+  (qsum ws == 0 -> estimate Mean f wrow failed = FDivZero) /\
+  (~ qsum ws == 0 -> exists v, estimate Mean f wrow failed = FOk v /\ v == dot fs ws / qsum ws).
+Proof.
+  intros HL ws fs. pose proof (rsum_zero_failed failed wrow HL) as Hs. fold ws in Hs. unfold estimate. split; intros H0.
+  - rewrite normalize_none by (rewrite Hs; exact H0). reflexivity.
+  - rewrite normalize_some by (rewrite Hs; exact H0). eexists; split; [reflexivity|].
+    unfold est_mean. rewrite rdot_dot.
+    assert (Hz : zeros_at failed (map (fun x => Qred (x / rsum (zero_failed failed wrow))) (zero_failed failed wrow))).
+    { apply zeros_at_map; [intros v Hv; apply div_zero; exact Hv | apply zero_failed_zeros; exact HL]. }
+    rewrite (dot_gather failed _ (nan_to_num f) Hz), gather_map, gather_zero_failed, nan_to_num_gather, dot_div_r, Hs.
+    reflexivity.
+Qed.
+
+Lemma count_nonzero_div s l : ~ s == 0 -> count_nonzero (map (fun x => Qred (x / s)) l) = count_nonzero l.
+Proof.
+  intros Hs. induction l as [|x l IH]; [reflexivity|]. cbn [map]. rewrite !count_nonzero_cons, IH. f_equal.
+  destruct (Qeqb x 0) eqn:E.
+  - apply Qeqb_eq in E. rewrite Qeqb_0_true; [reflexivity | apply div_zero; exact E].
+  - apply Qeqb_neq in E. destruct (Qeqb (Qred (x / s)) 0) eqn:E'; [|reflexivity].
+    apply Qeqb_eq in E'. rewrite Qred_correct in E'. exfalso. apply E.
+    assert (Hx : x == x / s * s) by (field; exact Hs). rewrite Hx, E'. ring.
+Qed.
+Lemma count_pos_div s l : 0 < s -> count_pos (map (fun x => Qred (x / s)) l) = count_pos l.
+Proof.
+  intros Hs. induction l as [|x l IH]; [reflexivity|]. cbn [map]. rewrite !count_pos_cons, IH. f_equal.
+  assert (Hi : 0 < / s) by (apply Qinv_lt_0_compat; exact Hs).
+  destruct (Qltb 0 x) eqn:E.
+  - apply Qltb_lt in E. assert (H : Qltb 0 (Qred (x / s)) = true); [|rewrite H; reflexivity].
+    apply Qltb_lt. rewrite Qred_correct. unfold Qdiv. nra.
+  - apply Qltb_nlt in E. assert (H : Qltb 0 (Qred (x / s)) = false); [|rewrite H; reflexivity].
+    apply Qltb_nlt. rewrite Qred_correct. unfold Qdiv. nra.
+Qed.
+
+Lemma estimate_var_status f wrow failed : length wrow = length failed ->
+  let ws := gather (keep_of failed) wrow in
+  estimate Stddev f wrow failed = FAbort <-> ~ qsum ws == 0 /\ (count_nonzero ws < min_stddev_realizations)%nat.
+Proof.
+  intros HL ws. pose proof (rsum_zero_failed failed wrow HL) as Hs. fold ws in Hs. unfold estimate.
+  destruct (Qeqb (qsum ws) 0) eqn:E0.
+  - apply Qeqb_eq in E0. rewrite normalize_none by (rewrite Hs; exact E0). split; [discriminate | intros [H _]; contradiction].
+  - apply Qeqb_neq in E0. assert (Hr : ~ rsum (zero_failed failed wrow) == 0) by (rewrite Hs; exact E0).
+    rewrite (normalize_some _ Hr). unfold est_var.
+    assert (Hz : zeros_at failed (zero_failed failed wrow)) by (apply zero_failed_zeros; exact HL).
+    rewrite (count_nonzero_div _ _ Hr), (count_nonzero_gather failed _ Hz), gather_zero_failed. fold ws.
+    destruct (count_nonzero ws <? min_stddev_realizations)%nat eqn:En.
+    + apply Nat.ltb_lt in En. split; [intros _; split; assumption | reflexivity].
+    + apply Nat.ltb_ge in En. split; [|intros [_ H]; lia].
+      destruct (count_pos _ <=? 1)%nat; discriminate.
+Qed.
+
+Lemma nonneg_gather m w : Forall (fun x => 0 <= x) w -> Forall (fun x => 0 <= x) (gather m w).
+Proof.
+  intros H; revert m; induction H as [|x w Hx _ IH]; intros [|[] m]; cbn [gather]; try constructor; auto.
+Qed.
+Lemma nonneg_count w : Forall (fun x => 0 <= x) w -> count_nonzero w = count_pos w.
+Proof.
+  induction 1 as [|x w Hx _ IH]; [reflexivity|]. rewrite count_nonzero_cons, count_pos_cons, IH. f_equal.
+  destruct (Qeqb x 0) eqn:E, (Qltb 0 x) eqn:E'; try reflexivity.
+  - apply Qeqb_eq in E. apply Qltb_lt in E'. lra.
+  - apply Qeqb_neq in E. apply Qltb_nlt in E'. exfalso. apply E. lra.
+Qed.
+Lemma count_pos_sum w : Forall (fun x => 0 <= x) w -> (0 < count_pos w)%nat -> 0 < qsum w.
+Proof.
+  induction 1 as [|x w Hx Hw IH]; [cbn; lia|]. rewrite count_pos_cons, qsum_cons. intros H.
+  pose proof (qsum_nonneg w Hw) as Hq. destruct (Qltb 0 x) eqn:E.
+  - apply Qltb_lt in E. lra.
+  - cbn in H. specialize (IH H). lra.
+Qed.
+
+Lemma estimate_var_spec f wrow failed : length wrow = length failed -> Forall (fun x => 0 <= x) wrow ->
+  let ws := gather (keep_of failed) wrow in
+  let fs := nan_to_num (gather (keep_of failed) f) in
+  let S := qsum ws in
+  let N := nat_Q (count_pos ws) in
+  let m := dot fs ws / S in
+  (2 <= count_pos ws)%nat ->
+  exists v, estimate Stddev f wrow failed = FOk v /\
+            v == N / (N - 1) * (dot (map (fun x => sq (x - m)) fs) ws / S).
+Proof.
+  intros HL Hnn ws fs S N m H2.
+  pose proof (rsum_zero_failed failed wrow HL) as Hs. fold ws in Hs. fold S in Hs.
+  assert (Hws : Forall (fun x => 0 <= x) ws) by (apply nonneg_gather; exact Hnn).
+  assert (HS : 0 < S) by (apply count_pos_sum; [exact Hws | lia]).
+  assert (Hr : ~ rsum (zero_failed failed wrow) == 0) by (rewrite Hs; lra).
+  assert (Hr' : 0 < rsum (zero_failed failed wrow)) by (rewrite Hs; exact HS).
+  assert (Hz : zeros_at failed (zero_failed failed wrow)) by (apply zero_failed_zeros; exact HL).
+  unfold estimate. rewrite (normalize_some _ Hr). unfold est_var.
+  set (w := map (fun x => Qred (x / rsum (zero_failed failed wrow))) (zero_failed failed wrow)).
+  assert (Hzw : zeros_at failed w).
+  { apply zeros_at_map; [intros v Hv; apply div_zero; exact Hv | exact Hz]. }
+  assert (Hgw : gather (keep_of failed) w = map (fun x => Qred (x / rsum (zero_failed failed wrow))) ws).
+  { unfold w. rewrite gather_map, gather_zero_failed. reflexivity. }
+  assert (Hcn : count_nonzero w = count_pos ws).
+  { unfold w. rewrite (count_nonzero_div _ _ Hr), (count_nonzero_gather failed _ Hz), gather_zero_failed. apply nonneg_count. exact Hws. }
+  assert (Hcp : count_pos w = count_pos ws).
+  { unfold w. rewrite (count_pos_div _ _ Hr'), (count_pos_gather failed _ Hz), gather_zero_failed. reflexivity. }
+  rewrite Hcn, Hcp.
+  replace (count_pos ws <? min_stddev_realizations)%nat with false
+    by (symmetry; apply Nat.ltb_ge; unfold min_stddev_realizations; exact H2).
+  replace (count_pos ws <=? 1)%nat with false by (symmetry; apply Nat.leb_gt; lia).
+  eexists; split; [reflexivity|].
+  unfold var_of. cbv zeta. rewrite Hcp. fold N. apply Qmult_comp; [reflexivity|].
+  assert (Hm : rdot (nan_to_num f) w == m).
+  { rewrite rdot_dot, (dot_gather failed w _ Hzw), Hgw, nan_to_num_gather, dot_div_r, Hs. reflexivity. }
+  set (g := fun x : Q => Qred (sq (x - rdot (nan_to_num f) w))).
+  rewrite (rdot_dot (map g _)), (dot_gather failed w _ Hzw), Hgw, gather_map, nan_to_num_gather, dot_div_r, Hs. fold fs.
+  apply Qmult_comp; [|reflexivity].
+  apply dot_proper; [|apply veq_refl]. apply veq_map_ext. intros x. unfold g. rewrite Qred_correct. unfold sq. rewrite Hm. reflexivity.
+Qed.
+
+
+(* ================================================================================================ *)
+(* 8. gradients: vectors                                                                              *)
+Lemma vadd_proper a a' b b' : veq a a' -> veq b b' -> veq (vadd a b) (vadd a' b').
+Proof.
+  intros Ha; revert b b'; induction Ha as [|x x' a a' Hx _ IH]; intros b b' Hb; [constructor|].
+  inversion Hb as [|y y' u u' Hy Hu]; subst; cbn [vadd]; constructor; [rewrite Hx, Hy; reflexivity | apply IH; exact Hu].
+Qed.
+Lemma vsub_proper a a' b b' : veq a a' -> veq b b' -> veq (vsub a b) (vsub a' b').
+Proof.
+  intros Ha; revert b b'; induction Ha as [|x x' a a' Hx _ IH]; intros b b' Hb; [constructor|].
+  inversion Hb as [|y y' u u' Hy Hu]; subst; cbn [vsub]; constructor; [rewrite Hx, Hy; reflexivity | apply IH; exact Hu].
+Qed.
+Lemma vscale_proper c c' a a' : c == c' -> veq a a' -> veq (vscale c a) (vscale c' a').
+Proof.
+  intros Hc Ha. unfold vscale. induction Ha as [|x x' a a' Hx _ IH]; cbn [map]; constructor; [|exact IH].
+  rewrite !Qred_correct, Hc, Hx. reflexivity.
+Qed.
+Lemma vscale_length c a : length (vscale c a) = length a.
+Proof. unfold vscale. apply map_length. Qed.
+Lemma vadd_length n a b : length a = n -> length b = n -> length (vadd a b) = n.
+Proof.
+  revert a b; induction n as [|n IH]; intros [|x a] [|y b] Ha Hb; cbn in *; try discriminate; [reflexivity|].
+  f_equal. apply IH; lia.
+Qed.
+Lemma vzero_length n : length (vzero n) = n.
+Proof. unfold vzero. apply repeat_length. Qed.
+Lemma vadd_zero_l c g b : c == 0 -> length g = length b -> veq (vadd (vscale c g) b) b.
+Proof.
+  intros Hc. revert b; induction g as [|x g IH]; intros [|y b] H; cbn in H; try discriminate; [constructor|].
+  injection H as H. unfold vscale in *. cbn [map vadd]. constructor; [|apply IH; exact H].
+  rewrite Qred_correct, Hc. ring.
+Qed.
+
+Section Grad.
+  Variable solve : list vec -> list Q -> vec.
+  Variable nv : nat.
+  Hypothesis solve_length : forall A b, length (solve A b) = nv.
+
+  Lemma vcomb_nil_r c : vcomb nv c [] = vzero nv.
+  Proof. destruct c; reflexivity. Qed.
+  Lemma vcomb_length c gs : Forall (fun g => length g = nv) gs -> length (vcomb nv c gs) = nv.
+  Proof.
+    intros H; revert c; induction H as [|g gs Hg _ IH]; intros [|v c]; cbn [vcomb]; try apply vzero_length.
+    apply vadd_length; [rewrite vscale_length; exact Hg | apply IH].
+  Qed.
+  Lemma vcomb_proper c c' gs : veq c c' -> veq (vcomb nv c gs) (vcomb nv c' gs).
+  Proof.
+    intros H; revert gs; induction H as [|v v' c c' Hv _ IH]; intros [|g gs]; cbn [vcomb]; try apply veq_refl.
+    apply vadd_proper; [apply vscale_proper; [exact Hv | apply veq_refl] | apply IH].
+  Qed.
+  Lemma vcomb_gather failed c gs : zeros_at failed c -> Forall (fun g => length g = nv) gs ->
+    veq (vcomb nv c gs) (vcomb nv (gather (keep_of failed) c) (gather (keep_of failed) gs)).
+  Proof.
+    intros H; revert gs; induction H as [|b v failed c Hb _ IH]; intros gs Hgs.
+    - cbn [keep_of map gather vcomb]. apply veq_refl.
+    - destruct gs as [|g gs]; [rewrite gather_nil, !vcomb_nil_r; apply veq_refl|].
+      pose proof (Forall_inv Hgs) as Hg. pose proof (Forall_inv_tail Hgs) as Hgs'. cbn beta in Hg. rewrite keep_of_cons. destruct b; cbn [negb gather vcomb].
+      + eapply veq_trans; [|apply IH; exact Hgs'].
+        apply vadd_zero_l; [apply Hb; reflexivity | rewrite vcomb_length by exact Hgs'; exact Hg].
+      + apply vadd_proper; [apply veq_refl | apply IH; exact Hgs'].
+  Qed.
+
+  (* ---- the least-squares system of one realization sees only the successful perturbations ------- *)
+  Lemma drop_failed_rows_nil_r dX : drop_failed_rows dX [] = ([], []).
+  Proof. destruct dX; reflexivity. Qed.
+
+  Lemma realization_system_reduced x fx pX pf :
+    realization_system x fx (reduce_pX pX pf) (reduce_pf pf) = realization_system x fx pX pf.
+  Proof.
+    unfold realization_system, reduce_pX, reduce_pf.
+    revert pX; induction pf as [|o pf IH]; intros pX.
+    - cbn [map filter gather]. rewrite !drop_failed_rows_nil_r. reflexivity.
+    - destruct pX as [|p pX]; [rewrite gather_nil; reflexivity|].
+      destruct o as [v|]; cbn [map filter is_some is_none negb gather].
+      + destruct fx as [y|]; cbn [osub drop_failed_rows].
+        * specialize (IH pX). cbn [osub] in IH.
+          destruct (drop_failed_rows (map (fun p0 => vsub p0 x) pX) (map (fun v0 => osub v0 (Some y)) pf)) as [a b].
+          rewrite IH. reflexivity.
+        * apply IH.
+      + cbn [osub drop_failed_rows]. apply IH.
+  Qed.
+
+  Lemma realization_gradient_reduced x fx pX pf w :
+    realization_gradient solve nv x fx (reduce_pX pX pf) (reduce_pf pf) w = realization_gradient solve nv x fx pX pf w.
+  Proof. unfold realization_gradient. rewrite realization_system_reduced. reflexivity. Qed.
+
+  Lemma realization_gradient_length x fx pX pf w : length (realization_gradient solve nv x fx pX pf w) = nv.
+  Proof. unfold realization_gradient. destruct (_ && _); [apply solve_length | apply vzero_length]. Qed.
+
+  Lemma realization_gradient_proper x fx pX pf w w' : w == w' ->
+    realization_gradient solve nv x fx pX pf w = realization_gradient solve nv x fx pX pf w'.
+  Proof. intros H. unfold realization_gradient. rewrite (Qeqb_proper _ _ H). reflexivity. Qed.
+
+  Notation rg := (realization_gradients solve nv).
+  Lemma rg_nil2 x fs pfs w : rg x fs [] pfs w = [].
+  Proof. destruct fs; reflexivity. Qed.
+  Lemma rg_nil3 x fs pXs w : rg x fs pXs [] w = [].
+  Proof. destruct fs, pXs; reflexivity. Qed.
+  Lemma rg_nil4 x fs pXs pfs : rg x fs pXs pfs [] = [].
+  Proof. destruct fs, pXs, pfs; reflexivity. Qed.
+
+  Lemma rg_lengths x fs pXs pfs w : Forall (fun g => length g = nv) (rg x fs pXs pfs w).
+  Proof.
+    revert pXs pfs w; induction fs as [|f fs IH]; intros [|pX pXs] [|pf pfs] [|v w]; cbn [realization_gradients]; try constructor.
+    - apply realization_gradient_length.
+    - apply IH.
+  Qed.
+
+  Lemma rg_gather m x fs pXs pfs w :
+    gather m (rg x fs pXs pfs w) = rg x (gather m fs) (gather m pXs) (gather m pfs) (gather m w).
+  Proof.
+    revert fs pXs pfs w; induction m as [|b m IH]; intros fs pXs pfs w; [reflexivity|].
+    destruct fs as [|f fs]; [cbn [realization_gradients]; rewrite !gather_nil; reflexivity|].
+    destruct pXs as [|pX pXs]; [rewrite (gather_nil (b :: m)), !rg_nil2, gather_nil; reflexivity|].
+    destruct pfs as [|pf pfs]; [rewrite (gather_nil (b :: m)), !rg_nil3, gather_nil; reflexivity|].
+    destruct w as [|v w]; [rewrite (gather_nil (b :: m)), !rg_nil4, gather_nil; reflexivity|].
+    destruct b; cbn [realization_gradients gather]; rewrite IH; reflexivity.
+  Qed.
+
+  Lemma rg_proper x fs pXs pfs w w' : veq w w' -> rg x fs pXs pfs w = rg x fs pXs pfs w'.
+  Proof.
+    intros H; revert fs pXs pfs; induction H as [|v v' w w' Hv _ IH]; intros fs pXs pfs; [reflexivity|].
+    destruct fs as [|f fs], pXs as [|pX pXs], pfs as [|pf pfs]; try reflexivity.
+    cbn [realization_gradients]. rewrite (realization_gradient_proper x f pX pf v v' Hv), IH. reflexivity.
+  Qed.
+
+  Lemma rg_reduced x fs pXs pfs w :
+    rg x fs (map2 reduce_pX pXs pfs) (map reduce_pf pfs) w = rg x fs pXs pfs w.
+  Proof.
+    revert pXs pfs w; induction fs as [|f fs IH]; intros pXs pfs w; [reflexivity|].
+    destruct pXs as [|pX pXs]; [reflexivity|].
+    destruct pfs as [|pf pfs]; [reflexivity|].
+    destruct w as [|v w]; [reflexivity|].
+    cbn [map2 map realization_gradients]. rewrite realization_gradient_reduced, IH. reflexivity.
+  Qed.
+
+  (* ---- combination --------------------------------------------------------------------------------- *)
+
+  Definition fw (f w : list Q) : list Q := map (fun p : Q * Q => Qred (fst p * snd p)) (combine f w).
+  Lemma fw_zeros failed f w : length f = length w -> zeros_at failed w -> zeros_at failed (fw f w).
+  Proof.
+    intros HL H; revert f HL; induction H as [|b v failed w Hb _ IH]; intros [|x f] HL; cbn in HL; try discriminate; [constructor|].
+    injection HL as HL. unfold fw in *. cbn [combine map fst snd]. constructor; [|apply IH; exact HL].
+    intros E. rewrite Qred_correct, (Hb E). ring.
+  Qed.
+  Lemma fw_proper f w w' : veq w w' -> veq (fw f w) (fw f w').
+  Proof.
+    intros H; revert f; induction H as [|v v' w w' Hv _ IH]; intros [|x f]; unfold fw in *; cbn [combine map fst snd]; constructor.
+    - rewrite !Qred_correct, Hv. reflexivity.
+    - apply IH.
+  Qed.
+  Lemma fw_gather m f w : gather m (fw f w) = fw (gather m f) (gather m w).
+  Proof. unfold fw. rewrite gather_map, gather_combine. reflexivity. Qed.
+
+  Lemma combine_gradients_removal failed k fs gs w w' :
+    length fs = length w -> zeros_at failed w -> veq (gather (keep_of failed) w) w' ->
+    Forall (fun g => length g = nv) gs ->
+    gres_eq (combine_gradients nv k fs gs w)
+            (combine_gradients nv k (gather (keep_of failed) fs) (gather (keep_of failed) gs) w').
+  Proof.
+    intros HL Hz Hv Hgs.
+    assert (Hgs' : Forall (fun g => length g = nv) (gather (keep_of failed) gs)).
+    { generalize (keep_of failed). clear - Hgs. induction Hgs as [|g gs Hg _ IH]; intros [|[] m]; cbn [gather]; try constructor; auto. }
+    assert (Hmean : veq (vcomb nv w gs) (vcomb nv w' (gather (keep_of failed) gs))).
+    { eapply veq_trans; [apply (vcomb_gather failed); assumption | apply vcomb_proper; exact Hv]. }
+    destruct k; cbn [combine_gradients gres_eq]; [exact Hmean|].
+    rewrite (count_nonzero_gather failed w Hz), (count_nonzero_veq _ _ Hv),
+            (count_pos_gather failed w Hz), (count_pos_veq _ _ Hv).
+    destruct (count_nonzero w' <? min_stddev_realizations)%nat; [exact I|].
+    destruct (count_pos w' <=? 1)%nat; [exact I|].
+    cbn [gres_eq]. rewrite <- nan_to_num_gather. split; [apply var_of_removal; assumption|].
+    apply vscale_proper; [reflexivity|]. apply vsub_proper.
+    - fold (fw (nan_to_num fs) w). fold (fw (gather (keep_of failed) (nan_to_num fs)) w').
+      eapply veq_trans; [apply (vcomb_gather failed); [apply fw_zeros; [unfold nan_to_num; rewrite map_length; exact HL | exact Hz] | exact Hgs]|].
+      apply vcomb_proper. rewrite fw_gather. apply fw_proper. exact Hv.
+    - apply vscale_proper; [apply mean_removal; assumption | exact Hmean].
+  Qed.
+
+  Lemma gradient_removal k x fs pXs pfs wrow failed :
+    length fs = length failed -> length wrow = length failed ->
+    let keep := keep_of failed in
+    gres_eq (gradient_of solve nv k x fs pXs pfs wrow failed)
+            (gradient_of solve nv k x (gather keep fs)
+                         (map2 reduce_pX (gather keep pXs) (gather keep pfs)) (map reduce_pf (gather keep pfs))
+                         (gather keep wrow) (repeat false (count_ok failed))).
+  Proof.
+    intros HLf HL keep. unfold gradient_of. pose proof (normalized_removal failed wrow HL) as H. fold keep in H.
+    destruct (normalize (zero_failed failed wrow)) as [w|] eqn:En,
+             (normalize (zero_failed (repeat false (count_ok failed)) (gather keep wrow))) as [w'|];
+      try contradiction; [|exact I].
+    destruct H as [Hz Hv].
+    rewrite rg_reduced, <- (rg_proper x _ _ _ _ _ Hv), <- rg_gather.
+    apply combine_gradients_removal; try assumption; [|apply rg_lengths].
+    apply normalize_inv in En as [_ ->]. rewrite map_length, zero_failed_length by exact HL. exact HLf.
+  Qed.
+End Grad.
+
+
+(* ================================================================================================ *)
+(* 9. factorisation of estimate_all, weighted objective                                               *)
+Lemma estimate_all_length ests emap cfgw wmat rows failed :
+  length (estimate_all ests emap cfgw wmat rows failed) = length emap.
+Proof. unfold estimate_all. rewrite map_length, seq_length. reflexivity. Qed.
+
+Lemma estimate_all_nth ests emap cfgw wmat rows failed j : (j < length emap)%nat ->
+  nth j (estimate_all ests emap cfgw wmat rows failed) FNoEst =
+    match nth_error ests (nth j emap 0%nat) with
+    | Some k => estimate k (column j rows) (in_force cfgw wmat j) failed
+    | None => FNoEst
+    end.
+Proof.
+  intros H. unfold estimate_all.
+  rewrite (nth_indep _ FNoEst (estimate_fn ests emap cfgw wmat rows failed 0%nat)) by (rewrite map_length, seq_length; exact H).
+  rewrite map_nth, seq_nth by exact H. reflexivity.
+Qed.
+
+Lemma estimate_all_local ests emap emap' cfgw wmat wmat' rows rows' failed j :
+  (j < length emap)%nat -> (j < length emap')%nat ->
+  nth j emap 0%nat = nth j emap' 0%nat -> column j rows = column j rows' ->
+  in_force cfgw wmat j = in_force cfgw wmat' j ->
+  nth j (estimate_all ests emap cfgw wmat rows failed) FNoEst =
+  nth j (estimate_all ests emap' cfgw wmat' rows' failed) FNoEst.
+Proof. intros H H' He Hc Hw. rewrite !estimate_all_nth by assumption. rewrite He, Hc, Hw. reflexivity. Qed.
+
+Lemma weighted_objective_dot ow objs : weighted_objective ow objs == dot ow objs.
+Proof. unfold weighted_objective. apply rdot_dot. Qed.
+
+(* ================================================================================================ *)
+(* 10. the rows of the filtered weight matrices                                                       *)
+Definition selb (fm : option (list Z)) (k j : nat) : bool :=
+  match fm with
+  | Some l => match nth_error l j with Some z => Z.eqb z (Z.of_nat k) | None => false end
+  | None => false
+  end.
+Definition shape (n : nat) (m : option mat) : Prop := match m with Some mm => length mm = n | None => True end.
+
+Lemma selb_unique fm k k' j : selb fm k j = true -> selb fm k' j = true -> k = k'.
+Proof.
+  unfold selb. destruct fm as [l|]; [|discriminate]. destruct (nth_error l j) as [z|]; [|discriminate].
+  intros H H'. apply Z.eqb_eq in H, H'. lia.
+Qed.
+
+Lemma nth_map_error {A B} (f : A -> B) l j d :
+  nth j (map f l) d = match nth_error l j with Some a => f a | None => d end.
+Proof. revert j; induction l as [|a l IH]; intros [|j]; cbn; try reflexivity. apply IH. Qed.
+
+Lemma any_sel_false fm idx j : any_sel (sel_of idx fm) = false -> selb fm idx j = false.
+Proof.
+  unfold any_sel, sel_of, selb. destruct fm as [l|]; cbn [option_map]; [|reflexivity].
+  intros H. destruct (nth_error l j) as [z|] eqn:E; [|reflexivity].
+  destruct (Z.eqb z (Z.of_nat idx)) eqn:Ez; [|reflexivity].
+  assert (Hex : existsb (fun b : bool => b) (map (fun k => Z.eqb k (Z.of_nat idx)) l) = true).
+  { apply existsb_exists. exists true. split; [|reflexivity]. apply in_map_iff. exists z. split; [exact Ez|].
+    apply nth_error_In with j. exact E. }
+  rewrite Hex in H. discriminate.
+Qed.
+
+Lemma set_rows_length m sel w : length (set_rows m sel w) = length m.
+Proof. revert sel; induction m as [|row m IH]; intros [|s sel]; cbn [set_rows length]; try reflexivity. rewrite IH. reflexivity. Qed.
+Lemma nth_set_rows m sel w j : (j < length m)%nat ->
+  nth j (set_rows m sel w) [] = if nth j sel false then w else nth j m [].
+Proof.
+  revert sel j; induction m as [|row m IH]; intros sel j H; cbn in H; [lia|].
+  destruct sel as [|s sel]; cbn [set_rows]; [destruct j; reflexivity|].
+  destruct j as [|j]; cbn [nth]; [reflexivity|]. apply IH. lia.
+Qed.
+Lemma nth_repeat_lt {A} (x d : A) n j : (j < n)%nat -> nth j (repeat x n) d = x.
+Proof. revert j; induction n as [|n IH]; intros j H; [lia|]. destruct j; cbn; [reflexivity | apply IH; lia]. Qed.
+
+Lemma shape_assign cfgw n m sel w : shape n m -> shape n (assign cfgw n m sel w).
+Proof.
+  intros H. unfold assign. destruct sel as [s|]; [|exact H]. cbn [shape]. rewrite set_rows_length.
+  destruct m as [mm|]; [exact H | apply repeat_length].
+Qed.
+Lemma in_force_assign cfgw n m fm idx w j : shape n m -> (j < n)%nat ->
+  in_force cfgw (assign cfgw n m (sel_of idx fm) w) j = if selb fm idx j then w else in_force cfgw m j.
+Proof.
+  intros Hs Hj. unfold sel_of, selb. destruct fm as [l|]; cbn [option_map assign]; [|reflexivity].
+  cbn [in_force]. rewrite nth_set_rows.
+  - rewrite nth_map_error. destruct m as [mm|]; cbn [in_force].
+    + destruct (nth_error l j); reflexivity.
+    + rewrite nth_repeat_lt by exact Hj. destruct (nth_error l j); reflexivity.
+  - destruct m as [mm|]; [cbn in Hs; lia | rewrite repeat_length; exact Hj].
+Qed.
+
+(* row j after the loop has run over [fouts] starting with filter index [idx] *)
+Definition rows_spec (cfgw : list Q) (n : nat) (fm : option (list Z)) (idx : nat) (fouts : list fout)
+           (m m' : option mat) : Prop :=
+  shape n m' /\
+  forall j, (j < n)%nat ->
+    (forall k, (idx <= k < idx + length fouts)%nat -> selb fm k j = true ->
+       exists w, nth_error fouts (k - idx) = Some (FW w) /\ in_force cfgw m' j = w) /\
+    ((forall k, (idx <= k < idx + length fouts)%nat -> selb fm k j = false) -> in_force cfgw m' j = in_force cfgw m j).
+
+Lemma rows_spec_nil cfgw n fm idx m : shape n m -> rows_spec cfgw n fm idx [] m m.
+Proof. intros H. split; [exact H|]. intros j Hj. split; [intros k Hk; cbn in Hk; lia | reflexivity]. Qed.
+
+Lemma rows_spec_skip cfgw n fm idx fo rest m m' : (forall j, selb fm idx j = false) ->
+  rows_spec cfgw n fm (S idx) rest m m' -> rows_spec cfgw n fm idx (fo :: rest) m m'.
+Proof.
+  intros Hno [Hs H]. split; [exact Hs|]. intros j Hj. destruct (H j Hj) as [Ha Hb]. cbn [length]. split.
+  - intros k Hk Hsel. assert (k <> idx) by (intros ->; rewrite Hno in Hsel; discriminate).
+    destruct (Ha k ltac:(lia) Hsel) as (w & E & Hw). exists w. split; [|exact Hw].
+    replace (k - idx)%nat with (S (k - S idx)) by lia. exact E.
+  - intros Hall. apply Hb. intros k Hk. apply Hall. lia.
+Qed.
+
+Lemma rows_spec_fw cfgw n fm idx w rest m m' : shape n m ->
+  rows_spec cfgw n fm (S idx) rest (assign cfgw n m (sel_of idx fm) w) m' ->
+  rows_spec cfgw n fm idx (FW w :: rest) m m'.
+Proof.
+  intros Hm [Hs H]. split; [exact Hs|]. intros j Hj. destruct (H j Hj) as [Ha Hb]. cbn [length].
+  pose proof (in_force_assign cfgw n m fm idx w j Hm Hj) as Hassign. split.
+  - intros k Hk Hsel. destruct (Nat.eq_dec k idx) as [->|Hne].
+    + exists w. rewrite Nat.sub_diag. split; [reflexivity|]. rewrite Hb.
+      * rewrite Hassign, Hsel. reflexivity.
+      * intros k' Hk'. destruct (selb fm k' j) eqn:E; [|reflexivity].
+        pose proof (selb_unique fm idx k' j Hsel E). lia.
+    + destruct (Ha k ltac:(lia) Hsel) as (w' & E & Hw). exists w'. split; [|exact Hw].
+      replace (k - idx)%nat with (S (k - S idx)) by lia. exact E.
+  - intros Hall. rewrite Hb by (intros k Hk; apply Hall; lia).
+    rewrite Hassign, (Hall idx ltac:(lia)). reflexivity.
+Qed.
+
+Lemma filter_loop_rows cfgw no nc ofm cfm : forall fouts idx ow cw ow' cw',
+  shape no ow -> shape nc cw ->
+  filter_loop cfgw no nc ofm cfm idx fouts ow cw = FiltOk ow' cw' ->
+  rows_spec cfgw no ofm idx fouts ow ow' /\ rows_spec cfgw nc cfm idx fouts cw cw'.
+Proof.
+  induction fouts as [|fo rest IH]; intros idx ow cw ow' cw' Ho Hc H; cbn [filter_loop] in H.
+  - injection H as <- <-. split; apply rows_spec_nil; assumption.
+  - destruct (negb (any_sel (sel_of idx ofm)) && negb (any_sel (sel_of idx cfm))) eqn:E.
+    + apply andb_prop in E as [E1 E2]. apply negb_true_iff in E1, E2.
+      destruct (IH _ _ _ _ _ Ho Hc H) as [H1 H2].
+      split; apply rows_spec_skip; try assumption; intros j; apply any_sel_false; assumption.
+    + destruct fo as [w| |]; try discriminate.
+      destruct (IH _ _ _ _ _ (shape_assign cfgw no ow (sel_of idx ofm) w Ho) (shape_assign cfgw nc cw (sel_of idx cfm) w Hc) H) as [H1 H2].
+      split; apply rows_spec_fw; assumption.
+Qed.
+
+Lemma selb_mapped fm k j : selb fm k j = true <-> mapped_to fm j k.
+Proof.
+  unfold selb, mapped_to. split.
+  - destruct fm as [l|]; [|discriminate]. destruct (nth_error l j) as [z|] eqn:E; [|discriminate].
+    intros H. apply Z.eqb_eq in H. subst z. exists l. split; [reflexivity | exact E].
+  - intros (l & -> & E). rewrite E. apply Z.eqb_refl.
+Qed.
+
+Lemma rows_in_force_generic cfgw n fm fouts m' j : rows_spec cfgw n fm 0 fouts None m' -> (j < n)%nat ->
+  (forall k, (k < length fouts)%nat -> mapped_to fm j k ->
+     exists w, nth_error fouts k = Some (FW w) /\ in_force cfgw m' j = w) /\
+  ((forall k, (k < length fouts)%nat -> ~ mapped_to fm j k) -> in_force cfgw m' j = cfgw).
+Proof.
+  intros [_ H] Hj. destruct (H j Hj) as [Ha Hb]. split.
+  - intros k Hk Hm. apply selb_mapped in Hm. destruct (Ha k ltac:(lia) Hm) as (w & E & Hw).
+    rewrite Nat.sub_0_r in E. exists w. split; assumption.
+  - intros Hall. rewrite Hb; [reflexivity|]. intros k Hk.
+    destruct (selb fm k j) eqn:E; [|reflexivity]. apply selb_mapped in E. exfalso. apply (Hall k); [lia | exact E].
+Qed.
+
+Lemma filtered_weights_rows c fouts ow cw : filtered_weights c fouts = FiltOk ow cw ->
+  rows_spec (cfg_w c) (cfg_no c) (cfg_ofm c) 0 fouts None ow /\ rows_spec (cfg_w c) (cfg_nc c) (cfg_cfm c) 0 fouts None cw.
+Proof. unfold filtered_weights. apply filter_loop_rows; exact I. Qed.
+
+Theorem rows_in_force c fouts ow cw : filtered_weights c fouts = FiltOk ow cw ->
+  (forall j, (j < cfg_no c)%nat ->
+     (forall k, (k < length fouts)%nat -> mapped_to (cfg_ofm c) j k ->
+        exists w, nth_error fouts k = Some (FW w) /\ in_force (cfg_w c) ow j = w) /\
+     ((forall k, (k < length fouts)%nat -> ~ mapped_to (cfg_ofm c) j k) -> in_force (cfg_w c) ow j = cfg_w c)) /\
+  (forall j, (j < cfg_nc c)%nat ->
+     (forall k, (k < length fouts)%nat -> mapped_to (cfg_cfm c) j k ->
+        exists w, nth_error fouts k = Some (FW w) /\ in_force (cfg_w c) cw j = w) /\
+     ((forall k, (k < length fouts)%nat -> ~ mapped_to (cfg_cfm c) j k) -> in_force (cfg_w c) cw j = cfg_w c)).
+Proof.
+  intros H. destruct (filtered_weights_rows c fouts ow cw H) as [Ho Hc].
+  split; intros j Hj; eapply rows_in_force_generic; eassumption.
+Qed.
+
+(* ================================================================================================ *)
+(* 11. batch layout                                                                                   *)
+Lemma combine_app_eq {A B} (a1 a2 : list A) (b1 b2 : list B) : length a1 = length b1 ->
+  combine (a1 ++ a2) (b1 ++ b2) = combine a1 b1 ++ combine a2 b2.
+Proof.
+  revert b1; induction a1 as [|x a1 IH]; intros [|y b1] H; cbn in *; try discriminate; [reflexivity|].
+  f_equal. apply IH. lia.
+Qed.
+Lemma combine_repeat_l {B} (b : nat) (l : list B) : combine (repeat b (length l)) l = map (pair b) l.
+Proof. induction l as [|y l IH]; cbn; [reflexivity | rewrite IH; reflexivity]. Qed.
+
+Lemma layout_general (l : list nat) R :
+  combine (flat_map (fun b => repeat b R) l) (concat (repeat (seq 0 R) (length l))) =
+  flat_map (fun b => map (pair b) (seq 0 R)) l.
+Proof.
+  induction l as [|b l IH]; [reflexivity|]. cbn [flat_map length repeat concat].
+  rewrite combine_app_eq by (rewrite repeat_length, seq_length; reflexivity).
+  rewrite IH. f_equal. rewrite <- (seq_length R 0) at 1. apply combine_repeat_l.
+Qed.
+Lemma layout_functions_product B R : layout_functions B R = list_prod (seq 0 B) (seq 0 R).
+Proof.
+  unfold layout_functions, repeat_each, tile.
+  pose proof (layout_general (seq 0 B) R) as E. rewrite seq_length in E. rewrite E. clear E.
+  generalize (seq 0 B). intros l. induction l as [|b l IH]; cbn [flat_map list_prod]; [reflexivity | rewrite IH; reflexivity].
+Qed.
+
+Lemma chunk_concat {A} n (rows : list (list A)) : Forall (fun r => length r = n) rows ->
+  chunk n (length rows) (concat rows) = rows.
+Proof.
+  induction 1 as [|r rows Hr _ IH]; [reflexivity|]. cbn [length concat chunk].
+  rewrite firstn_app, skipn_app, Hr, Nat.sub_diag, <- Hr, firstn_all, skipn_all. cbn [firstn skipn app].
+  rewrite app_nil_r. rewrite Hr. rewrite IH. reflexivity.
+Qed.
+
+Lemma eval_batch_spec {A} (ev : nat -> nat -> A) B R : eval_batch ev B R = map (eval_single ev R) (seq 0 B).
+Proof.
+  unfold eval_batch, eval_single, layout_functions, repeat_each, tile.
+  pose proof (layout_general (seq 0 B) R) as E0. rewrite seq_length in E0. rewrite E0. clear E0.
+  rewrite <- (seq_length B 0) at 1. generalize (seq 0 B). intros l.
+  assert (E : map (fun br : nat * nat => ev (fst br) (snd br)) (flat_map (fun b => map (pair b) (seq 0 R)) l)
+              = concat (map (fun b => map (ev b) (seq 0 R)) l)).
+  { induction l as [|b l IH]; [reflexivity|]. cbn [flat_map map concat]. rewrite map_app, IH, map_map. reflexivity. }
+  rewrite E. rewrite <- (map_length (fun b => map (ev b) (seq 0 R)) l). apply chunk_concat.
+  apply Forall_forall. intros r Hr. apply in_map_iff in Hr as (b & <- & _). rewrite map_length, seq_length. reflexivity.
+Qed.
+
+(* calculate() handles the blocks one by one *)
+Lemma calculate_sets_nth c : forall blocks fouts rs b, calculate_sets c blocks fouts = Done rs -> (b < length blocks)%nat ->
+  exists r, nth_error rs b = Some r /\ one_set c (nth b blocks []) (nth b fouts []) = Done r /\
+            functions_abort (r_functions r) = false.
+Proof.
+  induction blocks as [|raw rest IH]; intros fouts rs b H Hb; cbn in Hb; [lia|].
+  cbn [calculate_sets] in H. destruct (one_set c raw (hd [] fouts)) as [r| |] eqn:E1; try discriminate.
+  destruct (functions_abort (r_functions r)) eqn:Ea; [discriminate|].
+  destruct (calculate_sets c rest (tl fouts)) as [rs'| |] eqn:E2; try discriminate. injection H as <-.
+  destruct b as [|b].
+  - exists r. cbn [nth_error nth]. split; [reflexivity|]. split; [|exact Ea]. destruct fouts; exact E1.
+  - destruct (IH (tl fouts) rs' b E2 ltac:(lia)) as (r' & H1 & H2 & H3). exists r'. cbn [nth_error nth].
+    split; [exact H1|]. split; [|exact H3]. destruct fouts as [|fo fouts]; cbn [tl nth] in *; [|exact H2].
+    destruct b; exact H2.
+Qed.
+Lemma calculate_sets_single c raw fo r : one_set c raw fo = Done r -> functions_abort (r_functions r) = false ->
+  calculate_sets c [raw] [fo] = Done [r].
+Proof. intros H Ha. cbn [calculate_sets hd tl]. rewrite H, Ha. reflexivity. Qed.
+
+Theorem batch_invariance c (ev : nat -> nat -> list oQ * list oQ) B R fouts rs b : (b < B)%nat ->
+  calculate_sets c (eval_batch ev B R) fouts = Done rs ->
+  exists r, nth_error rs b = Some r /\
+            calculate_sets c (eval_batch (fun _ => ev b) 1 R) [nth b fouts []] = Done [r].
+Proof.
+  intros Hb H. rewrite eval_batch_spec in H.
+  destruct (calculate_sets_nth c _ fouts rs b H ltac:(rewrite map_length, seq_length; exact Hb)) as (r & H1 & H2 & H3).
+  exists r. split; [exact H1|]. rewrite eval_batch_spec. cbn [seq map].
+  apply calculate_sets_single; [|exact H3].
+  rewrite (nth_indep _ [] (eval_single ev R 0%nat)) in H2 by (rewrite map_length, seq_length; exact Hb).
+  rewrite map_nth, seq_nth in H2 by exact Hb. exact H2.
+Qed.
+
+
+(* ================================================================================================ *)
+(* 12. failure flags                                                                                  *)
+Lemma has_nan_In r : has_nan r = true <-> In None r.
+Proof.
+  unfold has_nan. rewrite existsb_exists. split.
+  - intros (x & Hx & E). destruct x; [discriminate | exact Hx].
+  - intros H. exists None. split; [exact H | reflexivity].
+Qed.
+Lemma row_failure_In o c : row_failure o c = true <-> In None o \/ In None c.
+Proof. unfold row_failure. rewrite orb_true_iff, !has_nan_In. reflexivity. Qed.
+
+Lemma first_is_nan_blank (o : list oQ) : o <> [] -> first_is_nan (blank o) = true.
+Proof. destruct o; [congruence | reflexivity]. Qed.
+Lemma first_is_nan_has_nan o : first_is_nan o = true -> has_nan o = true.
+Proof. destruct o as [|[x|] o]; try discriminate. reflexivity. Qed.
+
+Lemma first_is_nan_propagate o c : o <> [] -> first_is_nan (fst (propagate_row (o, c))) = row_failure o c.
+Proof.
+  intros Ho. unfold propagate_row. cbn [fst snd]. destruct (row_failure o c) eqn:E; cbn [fst].
+  - apply first_is_nan_blank. exact Ho.
+  - destruct (first_is_nan o) eqn:E'; [|reflexivity]. apply first_is_nan_has_nan in E'.
+    unfold row_failure in E. rewrite E' in E. discriminate.
+Qed.
+
+Lemma nth_map_some {A B} (f : A -> B) l j a d : nth_error l j = Some a -> nth j (map f l) d = f a.
+Proof. intros H. rewrite nth_map_error, H. reflexivity. Qed.
+
+Lemma failed_fn_nth rows r o c : nth_error rows r = Some (o, c) -> o <> [] ->
+  nth r (failed_fn (propagate_nan rows)) false = row_failure o c.
+Proof.
+  intros H Ho. unfold failed_fn, propagate_nan. rewrite map_map.
+  rewrite (nth_map_some _ rows r (o, c) false H). apply first_is_nan_propagate. exact Ho.
+Qed.
+
+Lemma failed_iff_any_nan rows r o c : nth_error rows r = Some (o, c) -> o <> [] ->
+  (nth r (failed_fn (propagate_nan rows)) false = true <-> In None o \/ In None c).
+Proof. intros H Ho. rewrite (failed_fn_nth rows r o c H Ho). apply row_failure_In. Qed.
+
+(* the values of the surviving rows are untouched; failed rows are blank *)
+Lemma propagate_row_spec o c :
+  propagate_row (o, c) = if row_failure o c then (blank o, blank c) else (o, c).
+Proof. reflexivity. Qed.
+Lemma survivors_untouched rows : Forall (fun oc : list oQ * list oQ => fst oc <> []) rows ->
+  gather (keep_of (failed_fn (propagate_nan rows))) (propagate_nan rows) =
+  gather (keep_of (failed_fn (propagate_nan rows))) rows.
+Proof.
+  induction 1 as [|[o c] rows Ho _ IH]; [reflexivity|]. cbn [fst] in Ho.
+  cbn [propagate_nan map]. fold (propagate_nan rows). rewrite failed_fn_cons, keep_of_cons.
+  rewrite (first_is_nan_propagate o c Ho). rewrite propagate_row_spec.
+  destruct (row_failure o c); cbn [negb gather]; [exact IH | rewrite IH; reflexivity].
+Qed.
+
+(* ---- perturbations and the gradient flag ----------------------------------------------------------- *)
+Lemma nan_free_iff o c : nan_free (o, c) = true <-> ~ In None o /\ ~ In None c.
+Proof.
+  unfold nan_free. cbn [fst snd]. rewrite negb_true_iff, <- not_true_iff_false, row_failure_In. tauto.
+Qed.
+Lemma perturbation_ok_propagate o c : o <> [] -> perturbation_ok (propagate_row (o, c)) = nan_free (o, c).
+Proof. intros Ho. unfold perturbation_ok, nan_free. rewrite (first_is_nan_propagate o c Ho). reflexivity. Qed.
+Lemma success_count_propagate prow : Forall (fun oc : list oQ * list oQ => fst oc <> []) prow ->
+  success_count (propagate_nan prow) = count_true (map nan_free prow).
+Proof.
+  unfold success_count, propagate_nan. rewrite map_map. intros H. f_equal.
+  induction H as [|[o c] prow Ho _ IH]; [reflexivity|]. cbn [map]. cbn [fst] in Ho.
+  rewrite (perturbation_ok_propagate o c Ho), IH. reflexivity.
+Qed.
+
+Lemma failed_grad_nth pmin rows prows r : length prows = length rows -> (r < length rows)%nat ->
+  nth r (failed_grad pmin rows prows) false =
+  nth r (failed_fn rows) false || (success_count (nth r prows []) <? pmin)%nat.
+Proof.
+  intros HL Hr. unfold failed_grad.
+  assert (Hlen : length (failed_fn rows) = length prows) by (unfold failed_fn; rewrite map_length; symmetry; exact HL).
+  set (f := fun fp : bool * list (list oQ * list oQ) => fst fp || (success_count (snd fp) <? pmin)%nat).
+  rewrite (nth_indep _ false (f (false, []))) by (rewrite map_length, combine_length, Hlen, Nat.min_id, HL; exact Hr).
+  rewrite map_nth, combine_nth by exact Hlen. reflexivity.
+Qed.
+
+Lemma grad_failed_iff pmin rows prows r : length prows = length rows -> (r < length rows)%nat ->
+  (nth r (failed_grad pmin rows prows) false = true <->
+   nth r (failed_fn rows) false = true \/ (success_count (nth r prows []) < pmin)%nat).
+Proof.
+  intros HL Hr. rewrite (failed_grad_nth pmin rows prows r HL Hr), orb_true_iff, Nat.ltb_lt. reflexivity.
+Qed.
+
+(* ---- thresholds ------------------------------------------------------------------------------------- *)
+Lemma clamp_threshold_spec m n :
+  (clamp_threshold m n <= n)%nat /\
+  (m = None -> clamp_threshold m n = n) /\
+  (forall k, m = Some k -> (k <= n)%nat -> clamp_threshold m n = k) /\
+  (forall k, m = Some k -> (n < k)%nat -> clamp_threshold m n = n).
+Proof.
+  unfold clamp_threshold. destruct m as [k|].
+  - destruct (n <? k)%nat eqn:E; [apply Nat.ltb_lt in E | apply Nat.ltb_ge in E];
+      (split; [lia|]); (split; [discriminate|]); split; intros k' [= <-] H; lia.
+  - split; [lia|]. split; [reflexivity|]. split; intros k [=].
+Qed.
+
+(* ---- the realization_min_success gate ---------------------------------------------------------------- *)
+Lemma gate_iff rmin failed : gate rmin failed = true <-> (rmin <= count_ok failed)%nat.
+Proof. unfold gate. apply Nat.leb_le. Qed.
+
+Lemma count_ok_spec failed : count_ok failed = length (filter negb failed).
+Proof.
+  unfold count_ok, count_true. induction failed as [|b failed IH]; [reflexivity|].
+  cbn [map filter]. destruct b; cbn [negb length]; rewrite IH; reflexivity.
+Qed.
+
+Lemma one_set_gate c raw fouts r : one_set c raw fouts = Done r ->
+  r_rows r = propagate_nan raw /\ r_failed r = failed_fn (propagate_nan raw) /\
+  (r_functions r = None <-> (count_ok (r_failed r) < cfg_rmin c)%nat) /\
+  (forall f, r_functions r = Some f -> f = compute_functions c (r_ow r) (r_cw r) (r_rows r) (r_failed r)).
+Proof.
+  unfold one_set. destruct (filtered_weights c fouts) as [ow cw| |]; try discriminate.
+  intros [= <-]. cbn [r_rows r_failed r_functions r_ow r_cw]. split; [reflexivity|]. split; [reflexivity|].
+  destruct (gate (cfg_rmin c) (failed_fn (propagate_nan raw))) eqn:E.
+  - apply gate_iff in E. split; [split; [discriminate | lia] | intros f [= <-]; reflexivity].
+  - assert (~ (cfg_rmin c <= count_ok (failed_fn (propagate_nan raw)))%nat) by (rewrite <- gate_iff, E; discriminate).
+    split; [split; [lia | reflexivity] | discriminate].
+Qed.
+
+(* ---- exit codes ------------------------------------------------------------------------------------- *)
+Lemma exit_codes_distinct :
+  exit_code_of "TOO_FEW_REALIZATIONS" <> exit_code_of "OPTIMIZER_STEP_FINISHED" /\
+  exit_code_of "TOO_FEW_REALIZATIONS" <> exit_code_of "EVALUATION_STEP_FINISHED".
+Proof. split; vm_compute; discriminate. Qed.
+
+Lemma too_few_after_evaluation_iff rmin allow_nan results :
+  too_few_after_evaluation rmin allow_nan results = true <->
+  exists r, In r results /\
+            (fst r = true \/ (rmin = 0%nat /\ allow_nan = false /\ forallb (fun b : bool => b) (snd r) = true)).
+Proof.
+  unfold too_few_after_evaluation. rewrite existsb_exists. split; intros (r & Hr & H); exists r; (split; [exact Hr|]).
+  - apply orb_prop in H as [H|H]; [left; exact H | right].
+    apply andb_prop in H as [H H3]. apply andb_prop in H as [H1 H2].
+    apply Nat.ltb_lt in H1. apply negb_true_iff in H2. repeat split; [lia | exact H2 | exact H3].
+  - destruct H as [H|(H1 & H2 & H3)]; [rewrite H; reflexivity|].
+    subst rmin allow_nan. rewrite H3. cbn. apply orb_true_r.
+Qed.
+
+Lemma optimizer_step_exit_iff aborted rmin allow_nan results :
+  optimizer_step_exit aborted rmin allow_nan results = exit_code_of "TOO_FEW_REALIZATIONS" <->
+  aborted = true \/ too_few_after_evaluation rmin allow_nan results = true.
+Proof.
+  unfold optimizer_step_exit. rewrite <- orb_true_iff.
+  destruct (aborted || too_few_after_evaluation rmin allow_nan results); split; try reflexivity; try discriminate.
+  all: try (intros H; exfalso; apply (proj1 exit_codes_distinct); symmetry; exact H).
+Qed.
+Lemma optimizer_step_exit_cases aborted rmin allow_nan results :
+  optimizer_step_exit aborted rmin allow_nan results = exit_code_of "TOO_FEW_REALIZATIONS" \/
+  optimizer_step_exit aborted rmin allow_nan results = exit_code_of "OPTIMIZER_STEP_FINISHED".
+Proof. unfold optimizer_step_exit. destruct (_ || _); [left | right]; reflexivity. Qed.
+
+Lemma evaluator_step_exit_iff aborted missing :
+  evaluator_step_exit aborted missing = exit_code_of "TOO_FEW_REALIZATIONS" <->
+  aborted = true \/ In true missing.
+Proof.
+  unfold evaluator_step_exit.
+  assert (E : existsb (fun b : bool => b) missing = true <-> In true missing).
+  { rewrite existsb_exists. split; [intros (x & Hx & ->); exact Hx | intros H; exists true; split; [exact H | reflexivity]]. }
+  rewrite <- E, <- orb_true_iff.
+  destruct (aborted || existsb (fun b : bool => b) missing); split; try reflexivity; try discriminate.
+  all: try (intros H; exfalso; apply (proj2 exit_codes_distinct); symmetry; exact H).
+Qed.
+
+(* ================================================================================================ *)
+(* 13. statements on the raw evaluator output                                                         *)
+Lemma propagate_nan_length rows : length (propagate_nan rows) = length rows.
+Proof. unfold propagate_nan. apply map_length. Qed.
+
+Lemma grad_failed_raw pmin rows prows r o c : length prows = length rows ->
+  nth_error rows r = Some (o, c) -> o <> [] ->
+  Forall (fun oc : list oQ * list oQ => fst oc <> []) (nth r prows []) ->
+  (nth r (failed_grad pmin (propagate_nan rows) (map propagate_nan prows)) false = true <->
+   (In None o \/ In None c) \/ (count_true (map nan_free (nth r prows [])) < pmin)%nat).
+Proof.
+  intros HL Hr Ho Hp.
+  assert (Hlt : (r < length rows)%nat) by (apply nth_error_Some; rewrite Hr; discriminate).
+  rewrite grad_failed_iff by (rewrite ?map_length, propagate_nan_length; assumption).
+  rewrite (failed_iff_any_nan rows r o c Hr Ho).
+  assert (E : nth r (map propagate_nan prows) [] = propagate_nan (nth r prows [])).
+  { change (@nil (list oQ * list oQ)) with (propagate_nan []) at 1. apply map_nth. }
+  rewrite E, (success_count_propagate _ Hp). reflexivity.
+Qed.
+
+Lemma failed_fn_length rows : length (failed_fn rows) = length rows.
+Proof. unfold failed_fn. apply map_length. Qed.
+
+Lemma as_if_absent_functions (sel : list oQ * list oQ -> list oQ) ests emap cfgw wmat rows :
+  (forall j, (j < length emap)%nat -> length (in_force cfgw wmat j) = length rows) ->
+  Forall2 fres_eq
+    (estimate_all ests emap cfgw wmat (map sel rows) (failed_fn rows))
+    (estimate_all ests emap (gather (keep_of (failed_fn rows)) cfgw)
+                  (option_map (map (gather (keep_of (failed_fn rows)))) wmat)
+                  (map sel (gather (keep_of (failed_fn rows)) rows))
+                  (failed_fn (gather (keep_of (failed_fn rows)) rows))).
+Proof.
+  intros HL. rewrite failed_fn_survivors, <- gather_map. apply estimate_all_removal.
+  intros j Hj. rewrite failed_fn_length. apply HL. exact Hj.
+Qed.
